@@ -1,6 +1,6 @@
 SPECIFICATION Spec
 CONSTANTS
-  Targets = {"t1", "t2", "d/x"}
+  Targets = {"t1", "t2", "d/x", "d/e/y"}
   MaxRoot = 3
 INVARIANTS RootChainComplete Emit
 CHECK_DEADLOCK FALSE
